@@ -51,10 +51,15 @@ func LoadBaseline(file string) error {
 		return err
 	}
 	Baseline = map[string]bool{}
+	baselineInfo = map[string]baselineEntry{}
 	for _, l := range strings.Split(string(b), "\n") {
 		l = strings.TrimSpace(l)
 		if l != "" && !strings.HasPrefix(l, "#") {
-			Baseline[l] = true
+			cols := strings.Split(l, "\t")
+			Baseline[cols[0]] = true
+			if len(cols) == 4 {
+				baselineInfo[cols[0]] = baselineEntry{cols[1], cols[2], cols[3]}
+			}
 		}
 	}
 	return nil
@@ -182,7 +187,7 @@ func normalize(pkgs []*packages.Package, dropUnused bool) map[string][]byte {
 		for _, f := range p.Syntax {
 			for _, d := range f.Decls {
 				fd, ok := d.(*ast.FuncDecl)
-				if !ok || fd.Body == nil || Baseline[FuncKey(p.PkgPath, fd)] {
+				if !ok || fd.Body == nil || InBaseline(FuncKey(p.PkgPath, fd)) {
 					continue
 				}
 				obj, _ := p.TypesInfo.Defs[fd.Name].(*types.Func)
@@ -1523,7 +1528,7 @@ func (nz *normalizer) collectClosures(p *packages.Package, f *ast.File, fd *ast.
 			return true
 		}
 		obj := p.TypesInfo.Defs[id]
-		if obj == nil || Baseline[FuncKey(p.PkgPath, fd)+"$"+id.Name] {
+		if obj == nil || InBaseline(FuncKey(p.PkgPath, fd)+"$"+id.Name) {
 			return true
 		}
 		if why := closureInlinable(lit, obj, p.TypesInfo); why != "" {
@@ -1599,7 +1604,7 @@ func (nz *normalizer) iife(p *packages.Package, lit *ast.FuncLit) *helper {
 	if f != nil {
 		for _, d := range f.Decls {
 			if fd, ok := d.(*ast.FuncDecl); ok && fd.Pos() <= lit.Pos() && lit.End() <= fd.End() {
-				if Baseline[FuncKey(p.PkgPath, fd)+"$iife"] {
+				if InBaseline(FuncKey(p.PkgPath, fd)+"$iife") {
 					f = nil // the pinned tree already has an immediately-invoked literal here: leave the function alone
 				}
 			}
